@@ -44,3 +44,24 @@ func VerifGpgDates(keyCreated, sigCreated uint32, lifetime int64) (created, expi
 	}
 	return
 }
+
+// VerifParseTypedDER: one of the typed trials of parseDERData on its own
+func VerifParseTypedDER(kind string, der []byte) (Info, error) {
+	switch kind {
+	case "pkcs1pub":
+		return parsePKCS1PublicKey(der)
+	case "pkcs1priv":
+		return parsePKCS1PrivateKey(der)
+	case "dsa":
+		return parseDSAPrivateKey(der)
+	case "ec":
+		return parseECPrivateKey(der)
+	case "pkcs8":
+		return parsePKCS8PrivateKey(der)
+	case "pkix":
+		return parsePKIXPublicKey(der)
+	case "cert":
+		return parseCertificate(der)
+	}
+	return UnknownASN1Data, nil
+}
